@@ -370,21 +370,25 @@ func runC16(c *ctx) {
 			c16Concurrent(tier, id, r, o)
 		}
 	})
-	if tier == "thorough" && only < 0 {
-		c16RaceEvidence(c)
+	if only < 0 {
+		c16RaceEvidence(c, tier)
 	}
 }
 
 // c16RaceEvidence: the data-race clause is not a theorem.  Supporting evidence only: harness/build_c16.sh builds a small driver
 // with `go build -race` and cancels a few hundred searches from a concurrent goroutine; a report of the race detector is a finding.
-func c16RaceEvidence(c *ctx) {
+func c16RaceEvidence(c *ctx, tier string) {
 	exe, err := os.Executable()
 	if err != nil {
 		c.printf("SAMPLE race detector run skipped: %v\n", err)
 		return
 	}
 	script := filepath.Join(filepath.Dir(exe), "..", "harness", "build_c16.sh")
-	cmd := exec.Command("bash", script, fmt.Sprint(c.seed), "120")
+	cnt := "40" // quick: ~480 concurrently cancelled searches, a few seconds
+	if tier == "thorough" {
+		cnt = "120"
+	}
+	cmd := exec.Command("bash", script, fmt.Sprint(c.seed), cnt)
 	out, err := cmd.CombinedOutput()
 	text := string(out)
 	switch {
